@@ -19,6 +19,7 @@ from .core import explore, ret_states, sw_value, down_method, const_bool, FN_CAL
 from .expr import access_path, strip, is_transparent
 
 MAXD = 7
+_maxd = [MAXD]
 UNK = ('unk',)
 _STD_COLL = ('std::collections::', 'std::vec::Vec', 'smallvec::', 'std::collections::VecDeque')
 _ADD = ('push', 'push_back', 'push_front', 'insert', 'extend')
@@ -35,7 +36,7 @@ def depth(v):
 
 
 def cap(v):
-    return v if depth(v) <= MAXD else UNK
+    return v if depth(v) <= _maxd[0] else UNK
 
 
 def mentions_v(v, pred):
@@ -190,6 +191,8 @@ class Walker:
                 if e[2].endswith('Option::None'):
                     return ('none',)
                 return cap(('adt', e[2], ops, tuple(e[5]) if len(e) > 5 else ()))
+            if e[1] in ('closure', 'coroutine', 'coroutine_closure'):
+                return ('closure', e[2], ops)
             return cap(('agg', e[1], ops))
         if k == 'const':
             return ('const', e[1].replace('const ', ''))
@@ -204,7 +207,7 @@ class Walker:
         if k == 'discr':
             return cap(('discr', self._fin(self.ev(e[1], store, vals), store)))
         if k == 'fn':
-            return ('fnitem', e[2] if len(e) > 2 else '?')
+            return ('fnitem', e[1])
         return UNK
 
     def _self_step(self, store, path):
@@ -242,9 +245,10 @@ class Walker:
         store[key] = cap(v)
 
 
-def summaries(g, item_arg=2, self_arg=1, pure_extra=(), limit=60000):
+def summaries(g, item_arg=2, self_arg=1, pure_extra=(), limit=60000, maxd=MAXD):
     """list of (summary, key) for every return of g, and the predecessor map for witnesses"""
     W = Walker(g, item_arg, self_arg)
+    _maxd[0] = maxd
 
     def freeze(d):
         return tuple(sorted(d.items(), key=repr))
@@ -368,6 +372,8 @@ def summaries(g, item_arg=2, self_arg=1, pure_extra=(), limit=60000):
                     res = ('const', 'true' if (a[0][0] == 'none') == (tail == 'is_none') else 'false')
                 else:
                     res = cap(('pure', tail) + tuple(a[:2]))
+            elif kind == 'call' and name.startswith('std::ops::') and tail in ('add', 'sub', 'mul', 'div', 'rem', 'neg', 'not') and args:
+                res = cap(('op', tail.capitalize()) + tuple(W.val(x, store, vals) for x in args[:2]))
             elif kind == 'call':
                 # unknown callee: havoc what it may write through a &mut argument rooted in self
                 F = g.facts
@@ -413,7 +419,15 @@ def cur(summary, path):
 def show(v, n=0):
     if not isinstance(v, tuple):
         return str(v)
+    if not v:
+        return '()'
     k = v[0]
+    if k == 'arg':
+        return 'argument #%s' % (v[1] - 1 if isinstance(v[1], int) else v[1])
+    if k == 'adt':
+        return '%s{%s}' % (v[1].split('::')[-1], ', '.join(show(x, n + 1) for x in v[2]))
+    if k == 'call':
+        return v[1].split('::')[-1] + '()'
     if k in ('old', 'item'):
         return ('old self.' if k == 'old' else 'item') + ('.'.join(v[1]) if k == 'old' else (('.' + '.'.join(v[1])) if v[1] else ''))
     if k == 'const':
